@@ -1,5 +1,263 @@
-import Bkl
+/-
+  C13 — "Interpolation and $env substitute exactly the referenced values".
+  Model: `scanClose`, `scanSegs`, `interpSegs`, `interpBody`, `process2String`, `getWithVar`,
+  `getVar`, and the key handling of `process2` (Bkl/Process2.lean).
+  Specification side (`render`, `Canonical`, `interpSeg`, `interpSpec`, `envWF`) is defined in
+  BklProofs/Lemmas/Interp.lean.
+-/
+import BklProofs.Lemmas.Interp
 namespace Bkl
-/-- placeholder until the property theorems land -/
-theorem C13_placeholder : validate (.int 1) = .ok () := by simp [validate]; rfl
+
+/-! ## the scanner -/
+
+/-- The scanner recovers exactly the literal text and the references of a canonical template:
+    literals (non-empty, no '{', never adjacent — '}' and ':' etc. are copied verbatim) and
+    `{ref}`s (no '}' and no newline inside). -/
+theorem C13_scan_spec (segs : List Seg) (hc : Canonical segs) :
+    interpSegs (render segs) = segs := by
+  unfold interpSegs
+  rw [scanSegs_render segs hc [] _ (Nat.le_succ _) (Or.inl rfl)]
+  rfl
+
+/-- Nothing is lost or invented, for arbitrary input: the segments render back to the input
+    (the fuel `length + 1` used by `interpSegs` is sufficient). -/
+theorem C13_scan_render (cs : List Char) : render (interpSegs cs) = cs := by
+  unfold interpSegs
+  rw [render_scanSegs _ _ _ (Nat.le_succ _)]
+  rfl
+
+/-- non-vacuity / tests -/
+example : Canonical [.lit "a}:b ".toList, .ref "x.y".toList, .ref "$env:Z".toList, .lit "!".toList] := by
+  simp [Canonical, startsLit]
+example : interpSegs "a}:b {x.y}{$env:Z}!".toList
+    = [.lit "a}:b ".toList, .ref "x.y".toList, .ref "$env:Z".toList, .lit "!".toList] := by decide
+example : interpSegs "{a\nb} {c".toList = [.lit "{a\nb} {c".toList] := by decide
+
+/-! ## interpolated strings -/
+
+/-- `process2String` on `$"…"` is the explicit specification `interpSpec` on the scanned body:
+    each literal is copied, each `{r}` is replaced by `fmtV` of `getWithVar root docs ec r`
+    (after one more `process2String fuel` pass when that value is a string); the parts are
+    concatenated. -/
+theorem C13_interp_spec (fuel : Nat) (docs : List Val) (root : Val) (ec : Vars) (s : String)
+    (body : List Char) (hb : interpBody s = some body) :
+    process2String (fuel + 1) docs root ec s = interpSpec fuel docs root ec (interpSegs body) := by
+  rw [process2String.eq_1]
+  simp only [hb, interpSpec]
+  have key : ∀ (f : Seg → R String), (∀ seg, f seg = interpSeg fuel docs root ec seg) →
+      (do let parts ← List.mapM f (interpSegs body); pure (Val.str (String.join parts)))
+        = (match List.mapM (interpSeg fuel docs root ec) (interpSegs body) with
+          | .error e => .error e
+          | .ok parts => .ok (.str (String.join parts)) : R Val) := by
+    intro f hf
+    have : f = interpSeg fuel docs root ec := funext hf
+    subst this
+    cases List.mapM (interpSeg fuel docs root ec) (interpSegs body) <;> rfl
+  apply key
+  intro seg
+  cases seg with
+  | lit cs => rfl
+  | ref cs =>
+    simp only [interpSeg]
+    cases getWithVar root docs ec (String.ofList cs) with
+    | error e => rfl
+    | ok v =>
+      cases v <;> try rfl
+      simp only [ok_bind']
+      cases process2String fuel docs root ec _ <;> rfl
+
+example : interpBody "$\"a{b}\"" = some "a{b}".toList := by decide
+
+/-- with no fuel left an interpolated string is a circular-reference error -/
+theorem C13_interp_no_fuel (docs : List Val) (root : Val) (ec : Vars) (s : String)
+    (body : List Char) (hb : interpBody s = some body) :
+    process2String 0 docs root ec s = .error .circularRef := by
+  rw [process2String.eq_1]; simp only [hb]; rfl
+
+/-- A reference that cannot be resolved makes the whole string an error — never an empty
+    substitution. -/
+theorem C13_missing_is_error (fuel : Nat) (docs : List Val) (root : Val) (ec : Vars) (s : String)
+    (body : List Char) (hb : interpBody s = some body) (r : List Char) (e : Err)
+    (hr : Seg.ref r ∈ interpSegs body)
+    (he : getWithVar root docs ec (String.ofList r) = .error e) :
+    ∃ e', process2String (fuel + 1) docs root ec s = .error e' := by
+  rw [C13_interp_spec fuel docs root ec s body hb]
+  obtain ⟨e', h⟩ := mapM_error_of_mem (interpSeg fuel docs root ec) (interpSegs body)
+    ⟨Seg.ref r, hr, e, by simp [interpSeg, he]⟩
+  exact ⟨e', by simp [interpSpec, h]⟩
+
+/-- `getWithVar` fails (with a modelled error) only if the path lookup failed and the variable
+    is unbound; the error is then `variableNotFound`. -/
+theorem C13_getWithVar_error (root : Val) (docs : List Val) (ec : Vars) (m : String) (e : Err)
+    (h : getWithVar root docs ec m = .error e) (hu : e ≠ .unmodelled) :
+    (∃ e', get root docs (.str m) = .error e') ∧ fget ec m = none ∧ e = .variableNotFound := by
+  unfold getWithVar at h
+  cases hg : get root docs (.str m) with
+  | ok v => simp [hg, pure, Except.pure] at h
+  | error e' =>
+    refine ⟨⟨e', rfl⟩, ?_⟩
+    rw [hg] at h
+    by_cases hu' : e' = .unmodelled
+    · subst hu'
+      simp only [throw, throwThe, MonadExceptOf.throw, Except.error.injEq] at h
+      exact absurd h.symm hu
+    · have h' : getVar ec m = .error e := by
+        cases e' <;> first | exact h | exact absurd rfl hu'
+      unfold getVar at h'
+      cases hf : fget ec m with
+      | none =>
+        rw [hf] at h'
+        simp only [throw, throwThe, MonadExceptOf.throw, Except.error.injEq] at h'
+        exact ⟨rfl, h'.symm⟩
+      | some v => rw [hf] at h'; simp [pure, Except.pure] at h'
+
+/-- conversely a bound variable always rescues a failed path lookup -/
+theorem C13_getWithVar_var (root : Val) (docs : List Val) (ec : Vars) (m : String) (v : Val) (e : Err)
+    (hg : get root docs (.str m) = .error e) (hu : e ≠ .unmodelled) (hv : fget ec m = some v) :
+    getWithVar root docs ec m = .ok v := by
+  unfold getWithVar
+  rw [hg]
+  have : getVar ec m = .ok v := by simp [getVar, hv, pure, Except.pure]
+  cases e <;> first | exact this | exact absurd rfl hu
+
+/-- A reference that is a single plain key (`isPlainRef`, no '.') is replaced by exactly the
+    value stored under that key in the referencing document … -/
+theorem C13_ref_simple_key (kvs : Fields) (docs : List Val) (ec : Vars) (k : String) (v : Val)
+    (h1 : isPlainRef k = true) (h2 : '.' ∉ k.toList) (hv : fget kvs k = some v) :
+    getWithVar (.map kvs) docs ec k = .ok v :=
+  getWithVar_simple_key kvs docs ec k v h1 h2 hv
+
+/-- … and, when the document has no such key, by the variable of that name, if any -/
+theorem C13_ref_simple_key_missing (kvs : Fields) (docs : List Val) (ec : Vars) (k : String)
+    (h1 : isPlainRef k = true) (h2 : '.' ∉ k.toList) (hv : fget kvs k = none) :
+    getWithVar (.map kvs) docs ec k = getVar ec k := by
+  simp [getWithVar, get_simple_key _ _ _ h1 h2, getPath, hv]
+  rfl
+
+example : isPlainRef "a" = true ∧ '.' ∉ "a".toList ∧ fget [("a", Val.int 5)] "a" = some (.int 5) :=
+  ⟨isPlainRef_a, by decide, by decide⟩
+
+/-- non-vacuity of the hypotheses of `C13_getWithVar_error` / `C13_getWithVar_var` -/
+example : getWithVar (.map []) [] [] "a" = .error .variableNotFound ∧
+    Err.variableNotFound ≠ .unmodelled := by
+  refine ⟨?_, by decide⟩
+  rw [C13_ref_simple_key_missing _ _ _ _ isPlainRef_a (by decide) (by decide)]; rfl
+example : get (.map []) [] (.str "a") = .error .refNotFound ∧ Err.refNotFound ≠ .unmodelled ∧
+    fget [("a", Val.int 1)] "a" = some (.int 1) := by
+  refine ⟨?_, by decide, by decide⟩
+  rw [get_simple_key _ _ _ isPlainRef_a (by decide)]; rfl
+
+/-- end-to-end test: `$"x={a}!"` in the document `{a: 5}` is `"x=5!"` -/
+example : process2String 1 [] (.map [("a", .int 5)]) [] "$\"x={a}!\"" = .ok (.str "x=5!") := by
+  rw [C13_interp_spec 0 _ _ _ _ "x={a}!".toList (by decide)]
+  have hs : interpSegs "x={a}!".toList = [.lit "x=".toList, .ref "a".toList, .lit "!".toList] := by
+    decide
+  have hg : getWithVar (.map [("a", .int 5)]) [] [] (String.ofList "a".toList) = .ok (.int 5) :=
+    C13_ref_simple_key _ _ _ _ _ (by simpa using isPlainRef_a) (by decide) (by decide)
+  rw [hs]
+  simp only [interpSpec, List.mapM_cons, List.mapM_nil, interpSeg, hg, ok_bind', pure, Except.pure]
+  exact congrArg Except.ok (by decide)
+
+/-- end-to-end test: an unresolvable reference is an error -/
+example : ∃ e, process2String 1 [] (.map [("a", .int 5)]) [] "$\"x={1}!\"" = .error e := by
+  refine C13_missing_is_error 0 _ _ _ _ "x={1}!".toList (by decide) "1".toList .unmodelled
+    (by decide) ?_
+  simp [getWithVar, get, getPathFromString, parseRef, isPlainRef, flowItems]
+  rfl
+
+/-! ## `$env:NAME` -/
+
+/-- `$env:NAME` (for every NAME: such a string is never of the `$"…"` form) is a plain variable
+    lookup, whatever the fuel. -/
+theorem C13_env_is_lookup (fuel : Nat) (docs : List Val) (root : Val) (ec : Vars) (name : String) :
+    interpBody ("$env:" ++ name) = none ∧
+    process2String fuel docs root ec ("$env:" ++ name) = getVar ec ("$env:" ++ name) := by
+  refine ⟨interpBody_env name, ?_⟩
+  rw [process2String.eq_1]
+  simp only [interpBody_env, startsWith_env, Bool.true_or, if_true]
+
+theorem C13_env_bound (fuel : Nat) (docs : List Val) (root : Val) (ec : Vars) (name : String) (v : Val)
+    (h : fget ec ("$env:" ++ name) = some v) :
+    process2String fuel docs root ec ("$env:" ++ name) = .ok v := by
+  rw [(C13_env_is_lookup fuel docs root ec name).2]; simp [getVar, h, pure, Except.pure]
+
+theorem C13_env_unbound (fuel : Nat) (docs : List Val) (root : Val) (ec : Vars) (name : String)
+    (h : fget ec ("$env:" ++ name) = none) :
+    process2String fuel docs root ec ("$env:" ++ name) = .error .variableNotFound := by
+  rw [(C13_env_is_lookup fuel docs root ec name).2]; simp [getVar, h]; rfl
+
+/-- if the environment is well formed (every `$env:` variable is a string), the result of
+    `$env:NAME` is a string or `variableNotFound` -/
+theorem C13_env_is_string (fuel : Nat) (docs : List Val) (root : Val) (ec : Vars) (name : String)
+    (hwf : envWF ec) :
+    (∃ s, process2String fuel docs root ec ("$env:" ++ name) = .ok (.str s)) ∨
+    process2String fuel docs root ec ("$env:" ++ name) = .error .variableNotFound := by
+  cases h : fget ec ("$env:" ++ name) with
+  | none => exact Or.inr (C13_env_unbound fuel docs root ec name h)
+  | some v =>
+    obtain ⟨s, rfl⟩ := hwf _ _ h (startsWith_env name)
+    exact Or.inl ⟨s, C13_env_bound fuel docs root ec name _ h⟩
+
+example : envWF [("$env:HOME", .str "/root"), ("$repeat", .int 1)] := by
+  intro k v h hk
+  simp only [fget] at h
+  split at h
+  · cases h; exact ⟨_, rfl⟩
+  · split at h
+    · rename_i h2; subst h2; simp at hk
+    · cases h
+
+/-! ## strings that are left alone -/
+
+theorem C13_plain_string_untouched (fuel : Nat) (docs : List Val) (root : Val) (ec : Vars) (s : String)
+    (h1 : interpBody s = none) (h2 : s.startsWith "$env:" = false) (h3 : s ≠ "$repeat") :
+    process2String fuel docs root ec s = .ok (.str s) := by
+  rw [process2String.eq_1]
+  simp [h1, h2, h3]
+  rfl
+
+example : interpBody "hello {x}" = none ∧ "hello {x}".startsWith "$env:" = false
+    ∧ "hello {x}" ≠ "$repeat" := by
+  refine ⟨by decide, by simp, by decide⟩
+
+/-! ## `$env:` in a map key -/
+
+/-- `{"$env:NAME": v}` with `v` a non-null, non-string scalar: the key is replaced by the value
+    of NAME when that is a string; unbound → `variableNotFound`; bound to a non-string →
+    `invalidType`. -/
+theorem C13_env_in_key (fuel : Nat) (docs : List Val) (root : Val) (ec : Vars) (name : String)
+    (v : Val) (hv : (∃ b, v = .bool b) ∨ (∃ i, v = .int i) ∨ (∃ r, v = .flt r)) :
+    process2 (fuel + 2) docs root ec (.map [("$env:" ++ name, v)]) =
+      match fget ec ("$env:" ++ name) with
+      | some (.str k2) => .ok (.map [(k2, v)])
+      | some _ => .error .invalidType
+      | none => .error .variableNotFound := by
+  have hk1 : "$env:" ++ name ≠ "$encode" := env_ne name _ (by decide)
+  have hk2 : "$env:" ++ name ≠ "$decode" := env_ne name _ (by decide)
+  have hk3 : "$env:" ++ name ≠ "$value" := env_ne name _ (by decide)
+  have hkey : process2 (fuel + 1) docs root ec (.str ("$env:" ++ name))
+      = getVar ec ("$env:" ++ name) := by
+    rw [process2]; exact (C13_env_is_lookup _ docs root ec name).2
+  have hval : process2 (fuel + 1) docs root ec v = .ok v := by
+    rcases hv with ⟨b, rfl⟩ | ⟨i, rfl⟩ | ⟨r, rfl⟩ <;> rfl
+  have hnn : v.isNull = false := by
+    rcases hv with ⟨b, rfl⟩ | ⟨i, rfl⟩ | ⟨r, rfl⟩ <;> rfl
+  have hstep1 : (match v with
+      | .map m =>
+        match fget m "$repeat" with
+        | some r => (throw Err.invalidType : R Fields)
+        | none => pure (fset [] ("$env:" ++ name) v)
+      | _ => pure (fset [] ("$env:" ++ name) v)) = pure [("$env:" ++ name, v)] := by
+    rcases hv with ⟨b, rfl⟩ | ⟨i, rfl⟩ | ⟨r, rfl⟩ <;> rfl
+  rw [process2]
+  rcases hv with ⟨b, rfl⟩ | ⟨i, rfl⟩ | ⟨r, rfl⟩ <;>
+  · simp only [List.foldlM_cons, List.foldlM_nil, fset, pure_bind, fget, hk1, hk2, hk3, if_false,
+      hkey, hval, ok_bind', Val.isNull, Bool.false_eq_true, bind_pure]
+    unfold getVar
+    cases fget ec ("$env:" ++ name) with
+    | none => rfl
+    | some w => cases w <;> rfl
+
+example : fget [("$env:X", Val.str "k")] ("$env:" ++ "X") = some (.str "k") := by decide
+
 end Bkl
